@@ -250,11 +250,12 @@ def detApply (reg : Reg) (s : Det) (inv : Bool) (inp : Input) : Det × Out :=
               (p.1, (if inv then vadd else vsub) p.2 (reg s.degree tv (p.1 - o))))))
           | _, _ => (s', .err .notfitted)
 
-/-- `Detrender.update` (no fitted check) → `forecaster_.update(z, update_params=…)`:
-`_update_y_X`, then `self.fit(self._y, self._X, self.fh)` where `self.fh` raises if no horizon was
-ever set; the refit re-creates the pipeline before fitting it. -/
+/-- `Detrender.update`: `check_is_fitted()` first (repo commit b2363ba), then
+`forecaster_.update(z, update_params=…)`: `_update_y_X`, then `self.fit(self._y, self._X, self.fh)`
+where `self.fh` raises if no horizon was ever set; the refit re-creates the pipeline before fitting it. -/
 def detUpdate (s : Det) (inp : Input) (updParams : Bool) : Det × Out :=
-  match checkSeries true inp with
+  if !s.fitted then (s, .err .notfitted)
+  else match checkSeries true inp with
   | .error e => (s, .err e)
   | .ok z =>
     match s.fc with
